@@ -51,6 +51,8 @@ def gen_plan(prop, run_seed, tier):
                                      "overfill", "save_empty", "new"]), sub=s.randrange(2**31)))
     n_chains = s.randint(1, 4)
     lens = [s.choice([1, 2, 3, 5, 11 if big else 4]) for _ in range(n_chains)]
+    if s.random() < 0.06:  # chains longer than any plausible block size, of unequal length, in any position
+        lens[s.randrange(n_chains)] = s.choice([33, 70, 130])
     order = list(range(n_chains))
     s.shuffle(order)
     return dict(engine="holdersim", prop=prop, screen=spec, model=model, D=w.randint(1, 3), seed=w.randrange(2**31),
